@@ -161,12 +161,11 @@ Section Law.
     ++ chk 8 (retv_eqb (o_ret ob) br).
 
   (* clause 9: the iteration (insertion) order of the keys is that of the built-in dict: an overwritten key keeps
-     its place, a new key goes to the end (checked for every operation but update / |=, whose order is compared
-     with the model's in the correspondence) *)
-  Definition order_checked (o : op) : bool := match o with Update _ _ | Ior _ _ => false | _ => true end.
+     its place, a new key goes to the end — for every operation, update / |= included (new keys in the order of
+     their first occurrence in the argument) *)
   Definition order_ok (before : amap) (o : op) (ob : obs) : bool :=
     let '(bo, ba, br) := builtin before o (o_ret ob) in
-    negb (order_checked o) || list_eqb Z.eqb (keys (o_after ob)) (keys ba).
+    list_eqb Z.eqb (keys (o_after ob)) (keys ba).
   Definition ref_codes (before : amap) (o : op) (ob : obs) : list Z :=
     ref_codes3 before o ob ++ chk 9 (order_ok before o ob).
 
